@@ -213,17 +213,20 @@ Proof. intros H1 H2. destruct r; cbn [lift_res fst]; auto. Qed.
 Lemma process_item_cell rd it e : r_cell (fst (fst (process_item rd it e))) = r_cell rd.
 Proof.
   destruct it as [n p|p|t k f]; cbn [process_item fst]; auto.
-  destruct (process_fields k f [] (mkEntry (lower t) [] []) e) as [e1 ren].
-  apply (lift_res_fst (rd, e1) ren _ (fun x => r_cell (fst x) = r_cell rd)); auto.
-  intros en _. destruct (has_key_ci k (r_entries rd)); auto.
-  destruct (report_error (E_REPEATED, k) e1) as [e2 u].
-  apply (lift_res_fst (rd, e2) u _ (fun x => r_cell (fst x) = r_cell rd)); auto.
+  set (kr := match k with Some k0 => (k0, rd) | None => (s_unnamed ++ nat_dec (r_counter rd), with_counter rd (S (r_counter rd))) end).
+  assert (Hk : r_cell (snd kr) = r_cell rd) by (unfold kr; destruct k; reflexivity).
+  destruct kr as [key rd0]. cbn [snd] in Hk.
+  destruct (process_fields (r_pf rd0) key f [] (mkEntry (lower t) [] []) e) as [e1 ren].
+  apply (lift_res_fst (rd0, e1) ren _ (fun x => r_cell (fst x) = r_cell rd)); auto.
+  intros en _. destruct (has_key_ci key (r_entries rd0)); auto.
+  destruct (report_error (E_REPEATED, key) e1) as [e2 u].
+  apply (lift_res_fst (rd0, e2) u _ (fun x => r_cell (fst x) = r_cell rd)); auto.
 Qed.
 
-Lemma feed_cell_rd file : forall cell rd e, r_cell (snd (fst (fst (feed cell rd file e)))) = r_cell rd.
+Lemma feed_go_cell_rd file : forall cell rd e, r_cell (snd (fst (fst (feed_go cell rd file e)))) = r_cell rd.
 Proof.
-  induction file as [|c r IH]; intros cell rd e; cbn [feed fst snd]; auto.
-  destruct (ll_command true cell c e) as [[cell1 e1] ri].
+  induction file as [|c r IH]; intros cell rd e; cbn [feed_go fst snd]; auto.
+  destruct (ll_command true (r_keyless rd) cell c e) as [[cell1 e1] ri].
   apply (lift_res_fst (cell1, rd, e1) ri _ (fun x => r_cell (snd (fst x)) = r_cell rd)); auto.
   intros oi _. destruct oi as [it|]; [|apply IH].
   pose proof (process_item_cell rd it e1) as Hp.
@@ -231,6 +234,9 @@ Proof.
   apply (lift_res_fst (cell1, rd1, e2) u _ (fun x => r_cell (snd (fst x)) = r_cell rd)); auto.
   intros _ _. rewrite IH. auto.
 Qed.
+
+Lemma feed_cell_rd file cell rd e : r_cell (snd (fst (fst (feed cell rd file e)))) = r_cell rd.
+Proof. unfold feed. rewrite feed_go_cell_rd. reflexivity. Qed.
 
 Lemma Forall_set_nth {X} (P : X -> Prop) l i x : Forall P l -> P x -> Forall P (set_nth l i x).
 Proof.
@@ -257,7 +263,7 @@ Proof.
     + apply Forall_set_nth; auto. lia.
     + apply h_get_set_other. lia.
   - (* OParse *)
-    destruct (feed_files (new_macros (g_heap g) m) (mkReader 0 [] []) files (g_err g)) as [[[c2 rd2] e2] u].
+    destruct (feed_files (new_macros (g_heap g) (o_macros m)) (fresh_reader 0 m) files (g_err g)) as [[[c2 rd2] e2] u].
     unfold wfG; cbn [fst g_heap g_readers]. split; [split|]; auto.
   - (* OLowLevel *)
     destruct src as [r|].
@@ -315,14 +321,6 @@ Proof.
   intros Hh He. unfold step, exec, new_macros. destruct c; cbn [with_err g_err g_heap g_readers g_ms g_mf];
     rewrite Hh, He;
     destruct (feed_files _ _ files _) as [[[c2 rd2] e2] u]; reflexivity.
-Qed.
-
-Lemma parse_explicit_macros_lemma cap fmt g g' c l files :
-  g_err g = g_err g' ->
-  snd (step cap fmt g (c, OParse (Some l) files)) = snd (step cap fmt g' (c, OParse (Some l) files)).
-Proof.
-  intros He. unfold step, exec, new_macros. destruct c; cbn [with_err g_err g_heap g_readers g_ms g_mf];
-    rewrite He; destruct (feed_files _ _ files _) as [[[c2 rd2] e2] u]; reflexivity.
 Qed.
 
 Lemma parse_history_independent_lemma cap fmt cos c macros files :
@@ -779,7 +777,7 @@ Section ErrInv.
     apply (lift_res_fst e2 rr _ P); auto.
   Qed.
 
-  Lemma ll_command_P via cell c e : P e -> P (snd (fst (ll_command via cell c e))).
+  Lemma ll_command_P via kl cell c e : P e -> P (snd (fst (ll_command via kl cell c e))).
   Proof.
     intro He. destruct c as [name v|v|typ key fs| |]; cbn [ll_command fst snd]; auto.
     - pose proof (ll_value_P via cell v e He) as H1. destruct (ll_value via cell v e) as [e1 pv]. cbn [fst] in H1.
@@ -801,13 +799,13 @@ Section ErrInv.
     apply (lift_res_fst e1 u _ P); auto.
   Qed.
 
-  Lemma process_fields_P key fs : forall seen en e, P e -> P (fst (process_fields key fs seen en e)).
+  Lemma process_fields_P pf key fs : forall seen en e, P e -> P (fst (process_fields pf key fs seen en e)).
   Proof.
     induction fs as [|[n parts] r IH]; intros seen en e He; cbn [process_fields fst]; auto.
     destruct (existsb (str_eqb (lower n)) seen).
     - pose proof (P_report (E_DUPFIELD, n) e He) as H1. destruct (report_error (E_DUPFIELD, n) e) as [e1 u]. cbn [fst] in H1.
       apply (lift_res_fst e1 u _ P); auto.
-    - destruct (is_person_field n); auto.
+    - destruct (is_person_field pf n); auto.
       apply (lift_res_fst e (split_name_list (normalize_whitespace (concat parts))) _ P); auto. intros names _.
       pose proof (add_persons_P n names en e He) as H1. destruct (add_persons n names en e) as [e1 ren]. cbn [fst] in H1.
       apply (lift_res_fst e1 ren _ P); auto.
@@ -816,25 +814,29 @@ Section ErrInv.
   Lemma process_item_P rd it e : P e -> P (snd (fst (process_item rd it e))).
   Proof.
     intro He. destruct it as [n p|p|t k f]; cbn [process_item fst snd]; auto.
-    pose proof (process_fields_P k f [] (mkEntry (lower t) [] []) e He) as H1.
-    destruct (process_fields k f [] (mkEntry (lower t) [] []) e) as [e1 ren]. cbn [fst] in H1.
-    apply (lift_res_fst (rd, e1) ren _ (fun x => P (snd x))); auto. intros en _.
-    destruct (has_key_ci k (r_entries rd)); auto.
-    pose proof (P_report (E_REPEATED, k) e1 H1) as H2. destruct (report_error (E_REPEATED, k) e1) as [e2 u]. cbn [fst] in H2.
-    apply (lift_res_fst (rd, e2) u _ (fun x => P (snd x))); auto.
+    destruct (match k with Some k0 => (k0, rd) | None => (s_unnamed ++ nat_dec (r_counter rd), with_counter rd (S (r_counter rd))) end) as [key rd0].
+    pose proof (process_fields_P (r_pf rd0) key f [] (mkEntry (lower t) [] []) e He) as H1.
+    destruct (process_fields (r_pf rd0) key f [] (mkEntry (lower t) [] []) e) as [e1 ren]. cbn [fst] in H1.
+    apply (lift_res_fst (rd0, e1) ren _ (fun x => P (snd x))); auto. intros en _.
+    destruct (has_key_ci key (r_entries rd0)); auto.
+    pose proof (P_report (E_REPEATED, key) e1 H1) as H2. destruct (report_error (E_REPEATED, key) e1) as [e2 u]. cbn [fst] in H2.
+    apply (lift_res_fst (rd0, e2) u _ (fun x => P (snd x))); auto.
   Qed.
 
-  Lemma feed_P file : forall cell rd e, P e -> P (snd (fst (feed cell rd file e))).
+  Lemma feed_go_P file : forall cell rd e, P e -> P (snd (fst (feed_go cell rd file e))).
   Proof.
-    induction file as [|c r IH]; intros cell rd e He; cbn [feed fst snd]; auto.
-    pose proof (ll_command_P true cell c e He) as H1.
-    destruct (ll_command true cell c e) as [[cell1 e1] ri]. cbn [fst snd] in H1.
+    induction file as [|c r IH]; intros cell rd e He; cbn [feed_go fst snd]; auto.
+    pose proof (ll_command_P true (r_keyless rd) cell c e He) as H1.
+    destruct (ll_command true (r_keyless rd) cell c e) as [[cell1 e1] ri]. cbn [fst snd] in H1.
     apply (lift_res_fst (cell1, rd, e1) ri _ (fun x => P (snd x))); auto.
     intros oi _. destruct oi as [it|]; [|apply IH; auto].
     pose proof (process_item_P rd it e1 H1) as H2.
     destruct (process_item rd it e1) as [[rd1 e2] u]. cbn [fst snd] in H2.
     apply (lift_res_fst (cell1, rd1, e2) u _ (fun x => P (snd x))); auto.
   Qed.
+
+  Lemma feed_P file cell rd e : P e -> P (snd (fst (feed cell rd file e))).
+  Proof. unfold feed. apply feed_go_P. Qed.
 
   Lemma feed_files_P files : forall cell rd e, P e -> P (snd (fst (feed_files cell rd files e))).
   Proof.
@@ -847,8 +849,8 @@ Section ErrInv.
   Lemma lowlevel_P via file : forall cell e, P e -> P (snd (fst (lowlevel via cell file e))).
   Proof.
     induction file as [|c r IH]; intros cell e He; cbn [lowlevel fst snd]; auto.
-    pose proof (ll_command_P via cell c e He) as H1.
-    destruct (ll_command via cell c e) as [[cell1 e1] ri]. cbn [fst snd] in H1.
+    pose proof (ll_command_P via false cell c e He) as H1.
+    destruct (ll_command via false cell c e) as [[cell1 e1] ri]. cbn [fst snd] in H1.
     apply (lift_res_fst (cell1, e1) ri _ (fun x => P (snd x))); auto. intros oi _.
     specialize (IH cell1 e1 H1). destruct (lowlevel via cell1 r e1) as [ce2 rr]. cbn [fst] in IH.
     apply (lift_res_fst ce2 rr _ (fun x => P (snd x))); auto.
@@ -892,7 +894,7 @@ Section ErrInv.
     - destruct (nth_error (g_readers g) r) as [rd|]; [|auto].
       pose proof (feed_P file (h_get (g_heap g) (r_cell rd)) rd (g_err g) He) as H1.
       destruct (feed _ rd file (g_err g)) as [[[c1 rd1] e1] u]. cbn [fst snd g_err] in *. auto.
-    - pose proof (feed_files_P files (new_macros (g_heap g) m) (mkReader 0 [] []) (g_err g) He) as H1.
+    - pose proof (feed_files_P files (new_macros (g_heap g) (o_macros m)) (fresh_reader 0 m) (g_err g) He) as H1.
       destruct (feed_files _ _ files (g_err g)) as [[[c2 rd2] e2] u]. cbn [fst snd g_err] in *. auto.
     - destruct src as [r|].
       + destruct (nth_error (g_readers g) r) as [rd|]; [|auto].
@@ -1010,3 +1012,8 @@ Proof.
   - destruct (run_cell0 cap fmt cos G0 wfG0) as [_ Hc]. exact Hc.
   - rewrite (run_errs0 cap fmt cos H2). reflexivity.
 Qed.
+
+(* the keyless-entry counter an earlier parse left behind is invisible to the next parse of the same
+   reader (reset per parse), and a fresh reader starts from its own *)
+Lemma unnamed_counter_reset_lemma cell rd n file e : feed cell (with_counter rd n) file e = feed cell rd file e.
+Proof. reflexivity. Qed.
